@@ -58,7 +58,10 @@ RULE = ('meshes: tet (6 Kuhn tets per cell) and hex bricks of 1..3 cells per axi
         'distinct = distinct (mesh, parameters); histories: knn sequences of length 3..6 over {1,2,3,5} on one compressor '
         '(A,B,A / A,A,B,A,B / A,B,C,A,C,B / free), all 8 transfers (nodal|elemental x compress|decompress x mean|sum) after '
         'every element of the sequence, non-trivial when the sequence returns to an earlier knn and the matrices differ; '
-        'order-sweep: asc/desc/shuf/midshuf/swap2 storage of one mesh, dist_thresh=0, cos_thresh in {1-1e-9, 0.999}')
+        'order-sweep: asc/desc/shuf/midshuf/swap2 storage of one mesh, dist_thresh=0, cos_thresh in {1-1e-9, 0.999}; '
+        'shallow-angle: hex / tet bricks with anisotropic dyadic cell sizes whose top surface carries a roof ridge / valley '
+        '(tet: or a single raised node) of slope 2^-13 .. 2^-10 (faces exactly planar, meeting at 1 - cos = 3e-8 .. 2e-6), '
+        'elem_num in {1,2,3}, cos_thresh in {1, 1-1e-9}, dist_thresh = 0: no angle merge is admitted, volume exactly conserved')
 ASSUMPTIONS = [
     'node indices are < 2^32 (the code packs a directed edge into one int64)',
     'face hashes (random base modulo 2^61-1) do not collide',
@@ -140,12 +143,17 @@ def group_boundary(member_cells):
     return [list(k) for k, c in left.items() for _ in range(c)]
 
 
-def admits_angle_merge(groups, pos, cos_thresh, tol=1e-6):
+def admits_angle_merge(groups, pos, cos_thresh, tol=1e-10):
     """groups: [(flat face data of the member cells, cancel shared faces?)].  NECESSARY condition for `remove_edges` to merge two faces that are not coplanar: in some output group two boundary
     faces of the input that share an edge (a->b in one, b->a in the other) lie in non-parallel planes and the cosine of
     their normals reaches the threshold.  Stated on the exact input geometry; |cos| because the code's normal of a
     non-convex union of coplanar faces may come out with either sign; before the first such merge every face of the
-    pipeline is a union of coplanar input faces, so its normal is +- the exact one."""
+    pipeline is a union of coplanar input faces, so its normal is +- the exact one.
+    The comparison is exact (rationals): cos^2 = dot^2 / (|x|^2 |y|^2) against (cos_thresh - tol)^2; `tol` only covers the
+    rounding of the code's float unit normals and their dot product (a few ulp, amplified by at most the cancellation in
+    the normal of a non-convex union), NOT a modelling allowance: faces that meet at a shallow but non-zero angle
+    (1 - cos ~ 1e-8 … 1e-6) are not admitted by cos_thresh = 1 or 1 - 1e-9."""
+    T = F(cos_thresh) - F(tol)
     for members, cancel in groups:
         faces = group_boundary(members) if cancel else [f for flat in members for f in parse_flat(flat)]
         normals = [face_normal(f, pos) for f in faces]
@@ -162,8 +170,8 @@ def admits_angle_merge(groups, pos, cos_thresh, tol=1e-6):
                     cr = (x[1] * y[2] - x[2] * y[1], x[2] * y[0] - x[0] * y[2], x[0] * y[1] - x[1] * y[0])
                     if not any(cr):
                         continue
-                    den = (float(sum(v * v for v in x)) * float(sum(v * v for v in y))) ** .5
-                    if den and abs(float(sum(u * v for u, v in zip(x, y)))) / den >= cos_thresh - tol:
+                    dot = sum(u * v for u, v in zip(x, y))
+                    if T <= 0 or dot * dot >= T * T * sum(v * v for v in x) * sum(v * v for v in y):
                         return True
     return False
 
@@ -217,6 +225,38 @@ def gen_history_case(rnd, i):
                for b in m['blocks'].values() for _, c in b for i in range(len(c)) for j in range(i))
     params = {'elem_num': rnd.choice([1, 2, 3]), 'cos_thresh': rnd.choice([0.999, 0.99, 0.9]),
               'dist_thresh': round(rnd.choice([0.0, 0.0, 0.0, 0.5, 1.01]) * emin, 6), 'knn': rnd.choice([1, 2, 3, 5])}
+    return m, params
+
+
+def shallow_case(rnd, i):
+    """stream 'shallow-angle': hex / tet brick (anisotropic cell sizes) whose top surface carries a very shallow roof ridge
+    or valley along x = x0 or y = y0 (tet: also a single raised / lowered top node): every input face stays exactly planar
+    (dyadic coordinates), the slopes are eps = 2^-13 .. 2^-10 (1e-4 .. 1e-3 of the cell size), so the faces at the ridge
+    meet at a non-zero angle with 1 - cos ~ 2 eps^2 = 3e-8 .. 2e-6.  cos_thresh in {1, 1 - 1e-9} admits no angle merge on
+    this geometry and dist_thresh = 0 merges no vertex: the volume must be conserved exactly."""
+    kind = 'hex' if i % 2 == 0 else 'tet'
+    nx, ny, nz = rnd.choice([(2, 1, 1), (2, 2, 1), (3, 2, 1), (2, 2, 2), (3, 1, 1), (2, 3, 1)] + ([(4, 2, 2)] if kind == 'hex' else []))
+    m = brick_mesh(kind, nx, ny, nz)
+    eps = F(1, 2 ** [13, 12, 11, 10][(i // 2) % 4]) * rnd.choice([1, 1, -1])
+    size = [F(rnd.choice([1, 1, 2, 4]), rnd.choice([1, 2, 4])) for _ in range(3)]
+    shape = rnd.choice(['ridge-x', 'ridge-x', 'ridge-y', 'tip'] if kind == 'tet' else ['ridge-x', 'ridge-x', 'ridge-y'])
+    if shape == 'ridge-y' and ny < 2:
+        shape = 'ridge-x'
+    x0, y0 = rnd.randint(1, nx - 1), rnd.randint(1, ny - 1) if ny > 1 else rnd.randint(0, 1)
+
+    def lifted(x, y, z):
+        on = z == nz and {'ridge-x': x == x0, 'ridge-y': y == y0, 'tip': x == x0 and y == y0}[shape]
+        # height = eps x the horizontal cell size across the ridge: slope eps on both sides
+        return z * size[2] + (eps * (size[1] if shape == 'ridge-y' else size[0]) if on else 0)
+    m['nodes'] = [(n, (x * size[0], y * size[1], lifted(x, y, z))) for n, (x, y, z) in m['nodes']]
+    pos = dict(m['nodes'])
+    for e, c in m['blocks'][kind]:
+        if kind == 'tet' and MG.signed('tet', [pos[n] for n in c]) < 0:
+            c[1], c[2] = c[2], c[1]
+        assert MG.signed(kind, [pos[n] for n in c]) > 0
+    m = reorder_nodes(rnd, m, rnd.choice(['asc', 'asc', 'shuf', 'desc']))
+    m['shallow'] = f'{shape}:slope=2^-{eps.denominator.bit_length() - 1}' + (':valley' if eps < 0 else '')
+    params = {'elem_num': rnd.choice([1, 1, 2, 3]), 'cos_thresh': [1.0, 1 - 1e-9][(i // 8 + i) % 2], 'dist_thresh': 0.0, 'knn': 1}
     return m, params
 
 
@@ -784,6 +824,11 @@ def run(ctx):
         for order in ('asc', 'desc', 'shuf', 'midshuf', 'swap2'):
             compress_case(ctx, reorder_nodes(ctx.rng, base, order), params, 'order-sweep')
             ctx.count('order-sweep:' + order)
+    # stream 'shallow-angle': faces meeting at very shallow non-zero angles, thresholds that admit only coplanar merges
+    for i in range(ctx.n(14, 240)):
+        m, params = shallow_case(ctx.rng, i)
+        compress_case(ctx, m, params, 'shallow-angle')
+        ctx.count(f'shallow-angle:{m["kind"]}:{m["shallow"]}:cos_thresh={"1" if params["cos_thresh"] == 1.0 else "1-1e-9"}')
     for i in range(n_merge):
         m, _ = gen_case(ctx.rng, i)
         n = sum(len(b) for b in m['blocks'].values())
